@@ -2,6 +2,7 @@
 #pragma once
 #include "util/RefCount.h"
 #include "util/ObjectPool.h"
+#include "util/Queue.h"
 #include "system/Mutex.h"
 #include "c18.h"
 
@@ -33,9 +34,15 @@ public:
       if (GetRefCount() != 0) thr::ReportAndExit("recycled_while_referenced", "an object was returned to its pool while its reference count was " + U(GetRefCount()));
       if (!inUse) thr::ReportAndExit("released_twice", "an object was returned to its pool twice");
       payload = rhs.payload; inUse = false; g_cnt.recycled++;
+      holdsRefs = isHeld = false;
+      inner = rhs.inner; kids = rhs.kids;   // (the default object holds nothing: this is where a recycled object lets go of what it held)
       return *this;
    }
    uint32 canary; int payload; bool inUse; bool fromHeap;
+   // an object may itself hold references (the way a Message holds field data, or a PathMatcherEntry its StringMatcherQueue): one direct one and a small Queue of them.
+   // Releasing it (heap: destructor; pool: "*obj = default object") drops them, which may release objects of ANOTHER pool from inside the first release.
+   RefCountableRef inner; Queue<RefCountableRef> kids;
+   bool holdsRefs = false, isHeld = false;   // harness rule against reference cycles: an object that holds references is never itself held by another object, and vice versa
 };
 DECLARE_REFTYPES(Obj);
 
@@ -53,7 +60,7 @@ inline Plan Gen(uint64_t seed)
       for (int i=0; i<n; i++)
       {
          const int k = (int) wl.below(4);
-         switch(wl.below(13))
+         switch(wl.below(14))
          {
             case 0: case 1: case 2: s += " O" + I(k); break;
             case 3: s += " H" + I(k); break;
@@ -62,6 +69,7 @@ inline Plan Gen(uint64_t seed)
             case 8: s += " W" + I(k); break;
             case 9: s += wl.oneIn(2) ? " X" : " U"; break;
             case 10: s += wl.oneIn(3) ? " D" : " P"; break;
+            case 12: {const uint32_t q = wl.below(3); s += (q == 0) ? (" L" + I(k)) : ((q == 1) ? (" Q" + I(k)) : (" B" + I(k)));} break;   // L/Q: the local object takes a reference to slot k's object (directly / into its Queue); B: obtain from the SECOND pool into slot k
             case 11: {const uint32_t q = wl.below(7); s += (q == 0) ? (" S" + I(k)) : ((q == 1) ? std::string(" A") : ((q == 2) ? std::string(" K") : ((q == 3) ? (" M" + I(k)) : ((q == 4) ? (" F" + I(1 + k*3)) : ((q == 5) ? (" M" + I(k)) : std::string(" Y"))))));} break;
             default: s += " Y"; break;
          }
@@ -78,6 +86,7 @@ template<int SLAB> struct Runner
       g_cnt = Counters();
       {
          ObjectPool<Obj, SLAB> pool((uint32) cfg.i("cache", 4));    // tiny slabs, tiny cache: slabs are created, emptied, cached and deleted during the run
+         ObjectPool<Obj, SLAB> pool2((uint32) cfg.i("cache", 4));   // a second pool of the same kind: objects of one pool may hold references to objects of the other
          const int NS = (int) std::min<long long>(4, std::max<long long>(1, cfg.i("slots", 3)));
          ObjRef slots[4]; Mutex slotLock;   // the slots themselves are guarded by a lock (a Ref is not a thread-safe object; the reference count is)
          volatile int done = 0; const int nt = (int) progs.size();
@@ -98,8 +107,28 @@ template<int SLAB> struct Runner
                         if (o->inUse) thr::ReportAndExit("pool_object_handed_out_twice", "ObtainObject() returned an object that another owner still holds");
                         if (o->payload != 0) thr::ReportAndExit("pool_object_not_fresh", "an object obtained from the pool still carries payload " + I(o->payload) + " from a previous life");
                         if (o->GetRefCount() != 0) thr::ReportAndExit("pool_object_not_fresh", "an object obtained from the pool has reference count " + U(o->GetRefCount()));
+                        if ((o->inner())||(o->kids.HasItems())) thr::ReportAndExit("pool_object_not_fresh", "an object obtained from the pool still holds references from a previous life");
                         o->inUse = true; o->payload = 1 + k; g_cnt.obtained++;
                         ObjRef nr(o); DECLARE_MUTEXGUARD(slotLock); slots[k] = nr;
+                     }
+                     break;
+                     case 'B':
+                     {
+                        Obj * o = pool2.ObtainObject(); if (o == NULL) break;
+                        if ((o->canary != 0xC0FFEE)||(o->inUse)||(o->payload != 0)||(o->GetRefCount() != 0)||(o->inner())||(o->kids.HasItems())) thr::ReportAndExit("pool_object_not_fresh", "an object obtained from the second pool is not in the state of a freshly constructed one (in use / payload / reference count / still holding references)");
+                        o->inUse = true; o->payload = 20 + k; g_cnt.obtained++;
+                        ObjRef nr(o); DECLARE_MUTEXGUARD(slotLock); slots[k] = nr;
+                     }
+                     break;
+                     case 'L': case 'Q':
+                     {
+                        // the local object takes a reference to slot k's object (never forming a cycle); when the local object is released later, possibly by another thread and
+                        // possibly from inside the release of something else, it must let go of it
+                        DECLARE_MUTEXGUARD(slotLock);
+                        Obj * me = local(); Obj * tgt = slots[k]();
+                        if ((me == NULL)||(tgt == NULL)||(me == tgt)||(me->isHeld)||(tgt->holdsRefs)) break;
+                        if (op[0] == 'L') {if (me->inner()) break; me->inner = slots[k];} else {if (me->kids.GetNumItems() >= 3) break; (void) me->kids.AddTail(RefCountableRef(slots[k]));}
+                        me->holdsRefs = true; tgt->isHeld = true; res.stats.inc((op[0] == 'L') ? "p.object_holds_reference" : "p.object_holds_queued_reference");
                      }
                      break;
                      case 'H': {Obj * o = new Obj; o->fromHeap = true; o->inUse = true; o->payload = 7; g_cnt.heapAllocated++; ObjRef nr(o); DECLARE_MUTEXGUARD(slotLock); slots[k] = nr;} break;
@@ -154,12 +183,13 @@ template<int SLAB> struct Runner
          }
          thr::WaitUntil([&]() {return done >= nt;});
          for (int k=0; k<4; k++) slots[k].Reset();
-         pool.PerformSanityCheck();
+         pool.PerformSanityCheck(); pool2.PerformSanityCheck();
          // every obtained object has been returned exactly once; every heap object deleted exactly once
          if (g_cnt.recycled != g_cnt.obtained) thr::ReportAndExit((g_cnt.recycled < g_cnt.obtained) ? "pooled_object_leaked" : "pooled_object_released_twice", U((uint64_t) g_cnt.obtained) + " objects obtained from the pool, " + U((uint64_t) g_cnt.recycled) + " returned to it, after every reference was dropped");
          if (g_cnt.heapDeleted != g_cnt.heapAllocated) thr::ReportAndExit("heap_object_leaked", U((uint64_t) g_cnt.heapAllocated) + " heap objects allocated, " + U((uint64_t) g_cnt.heapDeleted) + " deleted, after every reference was dropped");
          // pool bookkeeping: with nothing handed out, a drain gives every slab back; a slot that is still marked in use has no owner
-         pool.Drain();
+         pool.Drain(); pool2.Drain();
+         if (pool2.GetNumAllocatedItemSlots() != 0) thr::ReportAndExit("pool_slot_leaked", "every reference was dropped and the second pool drained, yet " + U(pool2.GetNumAllocatedItemSlots()) + " item slots remain allocated");
          if (pool.GetNumAllocatedItemSlots() != 0) thr::ReportAndExit("pool_slot_leaked", "every reference was dropped and the pool drained, yet " + U(pool.GetNumAllocatedItemSlots()) + " item slots remain allocated: some slab is still marked in use although nobody holds an object of it");
          res.stats.inc("objects_obtained", (uint64_t) g_cnt.obtained); res.stats.inc("heap_objects", (uint64_t) g_cnt.heapAllocated); res.stats.inc("objects_constructed", (uint64_t) g_cnt.ctor);
          if (g_cnt.dtor > 0) res.stats.inc("p.slab_deleted_during_run");
